@@ -6,9 +6,11 @@
 #include "tree.h"
 
 enum { SH_DEFAULT, SH_DOTSUFFIX, SH_NOSUFFIX_NULL, SH_NOSUFFIX_EMPTY, SH_NOPROJECT, SH_PD2, SH_PD3, SH_PD4,
-       SH_CONFIGDIRS, SH_SETCONFDIRS, SH_DROPIN_ONLY_NULL, SH_DROPIN_ONLY_EMPTY, SH_REFUSE, SH_NOROOT, SH_N };
+       SH_CONFIGDIRS, SH_SETCONFDIRS, SH_DROPIN_ONLY_NULL, SH_DROPIN_ONLY_EMPTY, SH_REFUSE, SH_NOROOT, SH_ALTNAMES, SH_N };
 static const char *SHN[SH_N] = { "default", "dot-suffix", "suffix-NULL", "suffix-empty", "project-NULL", "PARSING_DIRS-2", "PARSING_DIRS-3",
-  "PARSING_DIRS-4", "CONFIG_DIRS", "econf_set_conf_dirs", "dropins-only(name NULL)", "dropins-only(name \"\")", "refuse-NULL-NULL", "no-ROOT_PREFIX" };
+  "PARSING_DIRS-4", "CONFIG_DIRS", "econf_set_conf_dirs", "dropins-only(name NULL)", "dropins-only(name \"\")", "refuse-NULL-NULL", "no-ROOT_PREFIX", "default/dot-file-names" };
+/* second name universe for the default shape: a dot file, dictionary-vs-byte order, the bare suffix, a name that only contains the suffix */
+static const char *UNI2[T_MAXU] = { ".h.conf", "a.conf", "B.conf", ".conf", "x.conf.bak", ".conf.h" };
 static const char *UNI[T_MAXU] = { "10-a.conf", "9-b.conf", "B.conf", "a.conf", "README", ".h.conf", ".conf", "x.conf.bak" };
 
 static int u_big = 5, u_small = 2;
@@ -72,6 +74,10 @@ static void setup_shape(int sh)
     snprintf(ts.cd[0], sizeof ts.cd[0], ".d");
     main_states = 1;      /* a <project>.<suffix> file beside the <project>.d directories is outside the property */
     ts.nu = u_small < 3 ? 3 : u_small; ts.uname[2] = "README";
+    break;
+  case SH_ALTNAMES:
+    ts.nu = u_small + 1 > 6 ? 6 : u_small + 1;
+    for (int i = 0; i < ts.nu; i++) ts.uname[i] = UNI2[i];
     break;
   case SH_REFUSE: a_project = NULL; a_name = NULL; ts.nu = 0; main_states = 1; break;
   case SH_NOROOT: options[0] = 0; a_project = "verif-no-such-project-c01"; a_usr = "/usr/lib"; ts.nu = 0; main_states = 1;
